@@ -17,12 +17,12 @@ RULE = (
     '(per-mille of K), and a fixed family of base scenarios is enumerated over EVERY k <= K x every injection kind x '
     'every bus. Oracle: stop returns within T+1.0 virtual s and a bounded number of iterations; if the bus had accepted '
     'an event before, no handler of it starts after stop returned (whatever is dispatched to it later); after '
-    'cancel-all every task is done within 1.0 virtual s; no livelock afterwards. Non-trivial = the target bus was not '
+    'cancel-all every task is done within 1.0 virtual s (plus the longest generated handler clean-up); no livelock afterwards. Non-trivial = the target bus was not '
     'idle (or, for cancel-all, some bus was not idle) at the injection point; distinct by canonical JSON.'
 )
 ASSUMPTIONS = ['virtual time: crash points are loop iterations of a deterministic run', 'stop() on a never-started bus is a documented no-op', 'handlers already running when stop() returns may finish; only new starts are judged']
 
-P = Profile(max_buses=3, par=0.15, fwd=0.25, maxdepth=[1, 2], wild=0.15, raises=0.05, max_actors=3, actor_ops=['disp', 'disp', 'burst', 'dispany', 'sleep', 'sleep', 'await', 'yield'], max_actor_ops=7, durs=[0.01, 0.05, 0.1, 0.11, 0.25, 0.5, 0.5, 16.0, 20.0], hist=[None, 50], warm=[True, False])
+P = Profile(cleanup=0.25, cleanup_durs=[0.25, 2.0, 6.0], max_buses=3, par=0.15, fwd=0.25, maxdepth=[1, 2], wild=0.15, raises=0.05, max_actors=3, actor_ops=['disp', 'disp', 'burst', 'dispany', 'sleep', 'sleep', 'await', 'yield'], max_actor_ops=7, durs=[0.01, 0.05, 0.1, 0.11, 0.25, 0.5, 0.5, 16.0, 20.0], hist=[None, 50], warm=[True, False])
 
 KINDS = [
     {'kind': 'stop', 'timeout': None, 'clear': False},
@@ -172,7 +172,15 @@ def run_case(sc):
             if se.get('exc'):
                 viol.append(('C16.a', f'stop() on {sb["bus"]} raised {se["exc"]}'))
             if sb['started']:
-                late = [r for r in tr[se['i'] :] if r['k'] == 'enter' and r['bus'] == sb['bus']]
+                late = []
+                for r in tr[se['i'] :]:
+                    if r['k'] == 'enter' and r['bus'] == sb['bus']:
+                        prev = [x for x in tr[: r['i']] if x['k'] == 'exit' and (x['bus'], x['ev'], x['h']) == (r['bus'], r['ev'], r['h'])]
+                        # a further attempt of a @retry-wrapped handler that had started before stop() returned and failed on its own is
+                        # not a new start; a body that runs again after it was CANCELLED is (the cancellation was swallowed)
+                        if prev and prev[-1]['how'] == 'raise' and sc['handlers'][r['h']].get('kind') == 'aretry':
+                            continue
+                        late.append(r)
                 if late:
                     r = late[0]
                     viol.append(('C16.b', f'handler h{r["h"]} of event {r["ev"]} started on {sb["bus"]} at t={r["t"]:g} (idx {r["i"]}) after stop() had returned at t={se["t"]:g} (idx {se["i"]})'))
@@ -184,7 +192,7 @@ def run_case(sc):
         if icd is None:
             viol.append(('C16.c', f'cancel-all at t={ic["t"]:g}: the wait for the cancelled tasks never finished; hang={hang}'))
         elif icd['pending']:
-            viol.append(('C16.c', f'cancel-all at t={ic["t"]:g} (iteration {ic["iters"]}): task(s) still not done 1.0 virtual s later: {icd["pending"]}'))
+            viol.append(('C16.c', f'cancel-all at t={ic["t"]:g} (iteration {ic["iters"]}): task(s) still not done 1.0 virtual s (plus the longest generated clean-up) later: {icd["pending"]}'))
     if hang and hang.get('kind') in ('spinning', 'budget', 'deadlock') and (sb is not None or ic is not None):
         viol.append(('C16.d', f'after the injection the event loop livelocked: {hang.get("detail")}'))
     return {'viol': viol, 'nontrivial': nontrivial, 'classes': cl, 'hang': bool(hang), 'log': fmt_trace(out)}
